@@ -120,6 +120,21 @@ func TestBoundaryTables(t *testing.T) {
 		"2562047788015h12m55s807ms", "2562047788015h12m55s808ms", "153722867280912m55s807ms", "153722867280912m55s808ms", "9223372036854775s807ms", "9223372036854775s808ms", "9223372036854776s", "106751991168d", "2562047788016h", "153722867280913m", "1m60s", "25h", "1d24h", "1ms1s", "1d1d", "1h1d", "1s1m", "1ms1ms", "1.5h", "1 h", "1h ", " 1h", "-1d-1h", "+1d", "1D", "1MS", "1Ms", "--1s", "1m1ms1s", "1", "ms", "d", "-", "", "1msms", "1sm", "1mss", "١s", "1µs", "1us", "1ns", "1w", "1y", "0", "00000000000000000000000000000001d", "99999999999999999999d", "-99999999999999999999ms", "18446744073709551616ms", "18446744073709551617ms"} {
 		txt("duration", s)
 	}
+	// every quantity around the places where a 64-bit accumulator wraps (2^63, 2^64, 10^19, and the per-unit limits +-1),
+	// with every unit and both signs, alone and followed by a small lower component
+	for _, q := range []string{"9223372036854775806", "9223372036854775807", "9223372036854775808", "9223372036854775809", "9223372036854775810", "9223372036854775899",
+		"18446744073709551614", "18446744073709551615", "18446744073709551616", "18446744073709551617", "9999999999999999999", "10000000000000000000", "10000000000000000001",
+		"922337203685477580", "922337203685477581", "1844674407370955161", "1844674407370955162", "106751991167", "106751991168", "2562047788015", "2562047788016", "153722867280912", "153722867280913", "9223372036854775", "9223372036854776"} {
+		for _, u := range []string{"d", "h", "m", "s", "ms"} {
+			for _, sign := range []string{"", "-"} {
+				txt("duration", sign+q+u)
+				if u != "ms" {
+					txt("duration", sign+q+u+"1ms")
+					txt("duration", sign+"1d"+q+u)
+				}
+			}
+		}
+	}
 	for _, s := range []string{"0.0.0.0", "255.255.255.255", "127.0.0.1/8", "127.0.0.1/0", "127.0.0.1/32", "127.0.0.1/33", "::", "::1", "::/0", "::1/128", "::1/129", "1::", "1::/16", "1:2:3:4:5:6:7:8", "1:2:3:4:5:6:7::", "::2:3:4:5:6:7:8", "1::8", "1:2:3:4::5:6:7:8", "1:2:3::4:5:6:7:8", "1:2:3:4:5:6:7:8:9", "1:2:3:4:5:6:7", "FF00::1", "fF00::A", "abcd:ef01:2345:6789:abcd:ef01:2345:6789", "::ffff:102:304", "::ffff:1.2.3.4", "::1.2.3.4", "1.2.3.4::", "fe80::1%eth0", "fe80::1%", "1.2.3.4%1", "12345::1", "g::1", ":::1", "1:::2", "1::2::3", ":1", "1:", ":", "", "1.2.3", "1.2.3.4.5", "256.1.1.1", "1.2.3.4/", "/24", "1.2.3.4/-1", "1.2.3.4/+1", "1.2.3.4/1/2", "1.2.3.4/ 8", " 1.2.3.4", "1.2.3.4 ", "1.2.3.a", "1.2..4", "0x1.2.3.4", "1.2.3.4/8.0", "::/", "::/x", "١.2.3.4", "1.2.3.4/٨", "::%", "[::1]", "::1/64/64", "0:0:0:0:0:0:0:0", "0000:0000:0000:0000:0000:0000:0000:0000", "00000::", "::00000"} {
 		txt("ip", s)
 	}
